@@ -9,20 +9,100 @@ INF = float("inf")
 SPECIAL = [-INF, -1e308, -1.0, -0.0, 0.0, 5e-324, 1.0, 1e308, INF]
 
 
+_DECL = [0]
+
+
+def declare_directions(p, dirs, style):
+    """the ways a user can declare optimisation directions; all of them mean the same"""
+    E = [C.Direction.MAXIMIZE if d else C.Direction.MINIMIZE for d in dirs]
+    I = [C.Problem.MAXIMIZE if d else C.Problem.MINIMIZE for d in dirs]
+    S = ["maximize" if d else "MINIMIZE" for d in dirs]
+    if style == 0:
+        p.directions[:] = E
+    elif style == 1:
+        for i, e in enumerate(E):
+            p.directions[i] = e
+    elif style == 2:
+        for i, e in enumerate(I):
+            p.directions[i] = e
+    elif style == 3:
+        for i, e in enumerate(S):
+            p.directions[i] = e
+    elif style == 4:
+        p.directions[:] = I
+    elif style == 5:
+        p.directions[:] = S
+    elif style == 6:
+        p.directions[:] = tuple(E)
+    else:
+        p.directions[:] = C.Direction.MINIMIZE
+        for i, d in enumerate(dirs):
+            if d:
+                p.directions[i:i + 1] = C.Problem.MAXIMIZE
+
+
 def mk_problem(nobjs, dirs=None, constrained=False, nvars=1):
     p = C.Problem(nvars, nobjs, 1 if constrained else 0)
     if dirs is not None:
-        p.directions[:] = [C.Direction.MAXIMIZE if d else C.Direction.MINIMIZE for d in dirs]
+        _DECL[0] += 1
+        declare_directions(p, dirs, _DECL[0] % 8)       # every spelling of the declaration, in turn
     return p
 
 
+# every solution built by the harness is remembered with the values it was given: library code must never change
+# them behind the harness's back (aliasing between a solution and its copies would)
+_MADE = {}
+_LAST = {}
+_CLONE = [0]
+
+
 def mk_sol(problem, objs, cv=0.0):
-    s = C.Solution(problem)
+    """a solution with the given objectives; every third one is produced the way variation operators produce
+    offspring: a deep copy of an earlier solution of the same problem whose values are then overwritten"""
+    _CLONE[0] += 1
+    prev = _LAST.get(id(problem))
+    if prev is not None and _CLONE[0] % 3 == 0 and len(prev.objectives) == len(objs):
+        import copy
+        s = copy.deepcopy(prev)
+    else:
+        s = C.Solution(problem)
     s.objectives[:] = list(objs)
     s.constraint_violation = cv
     s.feasible = cv == 0.0
     s.evaluated = True
+    _LAST[id(problem)] = s
+    if len(_MADE) < 200000:
+        import weakref
+        _MADE[id(s)] = (weakref.ref(s), [o for o in objs], cv)     # weak: the registry must not keep objects (and their problems) alive
     return s
+
+
+def changed_on_purpose(s):
+    """the harness itself edited `s` after building it: record the new values"""
+    if id(s) in _MADE:
+        import weakref
+        _MADE[id(s)] = (weakref.ref(s), [s.objectives[i] for i in range(len(s.objectives))], s.constraint_violation)
+
+
+def integrity_failures(limit=3):
+    """solutions whose objectives / violation are no longer what the harness gave them"""
+    bad = []
+    for ref, objs, cv in list(_MADE.values()):
+        s = ref()
+        if s is None:
+            continue
+        try:
+            now = [s.objectives[i] for i in range(len(objs))]
+        except Exception:
+            now = None
+        same = now is not None and all((a == b) or (a != a and b != b) for a, b in zip(now, objs)) and \
+            (s.constraint_violation == cv or (cv != cv and s.constraint_violation != s.constraint_violation))
+        if not same:
+            bad.append({"given_objectives": [repr(o) for o in objs], "given_violation": cv,
+                        "now_objectives": None if now is None else [repr(o) for o in now], "now_violation": repr(getattr(s, "constraint_violation", None))})
+            if len(bad) >= limit:
+                break
+    return bad
 
 
 class Ids:
